@@ -60,6 +60,10 @@ func c19Path(r *rand.Rand) string {
 	switch r.IntN(4) {
 	case 0:
 		p += fmt.Sprintf("@v%d", 2+r.IntN(4))
+	case 1:
+		// every width of major version: one, two and three digits, around the powers of ten
+		majors := []int{2, 9, 10, 11, 19, 20, 21, 99, 100, 101, 123, 199, 200, 1000}
+		p += fmt.Sprintf("@v%d", majors[r.IntN(len(majors))])
 	}
 	return p
 }
@@ -158,7 +162,12 @@ func runC19(c *core.Ctx) {
 		if k := r.IntN(5); k > 0 {
 			cfg.Requirements = map[string]project.RequirementConfig{}
 			for ; k > 0; k-- {
-				cfg.Requirements[c19String(r)] = project.RequirementConfig{Path: c19Path(r), Version: c19Version(r)}
+				rp, rv := c19Path(r), c19Version(r)
+				if i := strings.LastIndex(rp, "@v"); i >= 0 && r.IntN(2) == 0 {
+					// a version on the major line the path names
+					rv = rp[i+1:] + rv[strings.Index(rv, "."):]
+				}
+				cfg.Requirements[c19String(r)] = project.RequirementConfig{Path: rp, Version: rv}
 			}
 		}
 		check(fmt.Sprintf("random/%d", i), "random", cfg)
